@@ -158,3 +158,57 @@ def judge_path(exp_msgs, nunits, impl):
     if len(impl) != pos:
         return (len(exp_msgs), f'implementation called extra handlers: {impl[pos:]}')
     return None
+
+
+# ----------------------------------------------------------------------------- header reference (C01)
+def ref_header(tree, T, h):
+    """reference verdict for a program header given as (symbolic) bytes, resolved from the root:
+    ('handler', id) | ('undefined',) | ('malformed',)
+    grammar: [':'] mnemonic (':' mnemonic)* ['?']  |  '*' mnemonic ['?'] ;  mnemonic = letter (letter | digit | '_')*"""
+    n = len(h)
+    if n == 0:
+        return ('malformed',)
+    alpha = lambda b: Or(in_range(b, 65, 90), in_range(b, 97, 122))
+    word = lambda b: Or(in_range(b, 48, 57), in_range(b, 65, 90), in_range(b, 97, 122), _eq(b, 95))
+    i = 0
+    common = False
+    if T(_eq(h[0], 42)):
+        common = True
+        i = 1
+    elif T(_eq(h[0], 58)):
+        i = 1
+    mnems = []
+    while True:
+        if i >= n or not T(alpha(h[i])):
+            return ('malformed',)
+        st = i
+        i += 1
+        while i < n and T(word(h[i])):
+            i += 1
+        mnems.append(h[st:i])
+        if i < n and not common and T(_eq(h[i], 58)):
+            i += 1
+            continue
+        break
+    query = False
+    if i < n and T(_eq(h[i], 63)):
+        query = True
+        i += 1
+    if i != n:
+        return ('malformed',)
+    path = ()
+    if common:
+        name = tree.child(T, (), [42] + list(mnems[0]))
+        if name is None:
+            return ('undefined',)
+        path = (name,)
+    else:
+        for m in mnems:
+            name = tree.child(T, path, list(m))
+            if name is None:
+                return ('undefined',)
+            path = path + (name,)
+    hid = tree.handler(path, query)
+    if hid is None:
+        return ('undefined',)
+    return ('handler', hid)
